@@ -302,6 +302,65 @@ func (ex *Exec) reachCheck(fr *Frame, st *State, label string) {
 		Goal: Implies(st.reach, False()), Backend: "smt", Text: label + ": the assumptions on this path are satisfiable (expected: sat)"})
 }
 
+// coverClauses: emit, for every clause of the form A ==> B, a guard "A can hold where the clause
+// is checked" (the clause is not vacuously true). Same convention as reachCheck: the goal is the
+// negation of what we want to be possible, and a solver proving it makes the guard fail.
+var coverClauses bool
+
+// antecedent returns A for a clause text that rewriteImplies produced from "A ==> B".
+func antecedent(text string) (string, bool) {
+	if !strings.HasPrefix(text, "(!(") {
+		return "", false
+	}
+	depth := 0
+	inStr := byte(0)
+	for i := 2; i < len(text); i++ {
+		c := text[i]
+		if inStr != 0 {
+			if c == '\\' {
+				i++
+			} else if c == inStr {
+				inStr = 0
+			}
+			continue
+		}
+		switch c {
+		case '"', '\'', '`':
+			inStr = c
+		case '(', '[', '{':
+			depth++
+		case ')', ']', '}':
+			depth--
+			if depth == 0 {
+				if strings.HasPrefix(text[i+1:], " || (") {
+					return text[3:i], true
+				}
+				return "", false
+			}
+		}
+	}
+	return "", false
+}
+
+// coverCheck records the guard for one clause; neverHolds is "the antecedent is false on every
+// path that reaches the check".
+func (ex *Exec) coverCheck(fr *Frame, kind, label string, neverHolds *Term, text string) {
+	if ex.spec > 0 {
+		return
+	}
+	name := fr.label + "#vacuity[" + kind
+	if label != "" {
+		name += "." + label
+	}
+	name += ".antecedent-can-hold]"
+	ex.names[name]++
+	if n := ex.names[name]; n > 1 {
+		name = fmt.Sprintf("%s~%d", name, n)
+	}
+	ex.obls = append(ex.obls, &Obligation{Name: name, Kind: "vacuity", Func: fr.label, NFacts: len(ex.facts),
+		Goal: neverHolds, Backend: "smt", Text: "antecedent of the clause can hold here (expected: sat): " + text})
+}
+
 func shortFile(f string) string {
 	if i := strings.Index(f, "/repo/"); i >= 0 {
 		return f[i+6:]
